@@ -49,6 +49,12 @@ CHECKS = {
         note="Trusted: pyvc, z3, specs/dj.py. Assumed: flat byte-array contract of bytes/ByteVec __getitem__/__len__ (ghost sequence); Contract invariant _fastcode = concrete first chunk of _code; with symbolic bytes only soundness (subset of D_J) is proved. Exec.check / create_branch / Exec.advance are used through their contracts in the jump-check proofs.",
         technique="loop-invariant VCs generated from the AST (pyvc), z3; bounded native enumeration as labelled stand-in",
     ),
+    "C17": dict(
+        text="Thread-modular, deductive per step model: each thread's real AST is executed by pyvc and the other thread's atomic steps (also real AST) are run at every statement boundary under every placement (exhaustive enumeration). Proved: the worker `run` of PopenFuture.start calls set_result exactly once, last, on every outcome of Popen/communicate (normal, TimeoutExpired, OSError, failure to spawn), leaves no process alive, and a timeout surfaces from result() as TimeoutExpired through CPython's real Future (=> unknown, never unsat: solve_low_level); run || cancel: once cancellation was requested at any statement boundary the process is never started or is terminated, never left to run; cancel terminates the process tree, tolerates a vanished process, closes pipes; submit || shutdown(wait=False) for every placement of shutdown's two steps: no job is started after shutdown returned, a job started before is cancelled, submit raises ShutdownError iff it saw the flag; shutdown(wait=True) waits for every job whatever the outcome of the others; shutdown_all. Three genuine defects were found by these obligations, replayed with real threads and repaired.",
+        ref="DESIGN.md 4/C17 and 11",
+        note="Trusted: pyvc, CPython's concurrent.futures.Future, the stated step model. Assumed: one Python statement of the verified units is atomic and lock bodies exclude each other (GIL, sequential consistency); one concurrent shutdown against one submit, one concurrent cancel against the worker (several concurrent submits/shutdowns are not modelled); Popen/communicate/psutil by contract (NoSuchProcess only). NOT CLAIMED: liveness beyond `the worker always reaches set_result` (OS-level termination delivery).",
+        technique="thread-modular contracts: real AST of each thread executed by pyvc with the other thread's atomic steps interleaved at every statement boundary, schedules enumerated exhaustively; sequential contracts for every outcome of the external calls",
+    ),
     "C18": dict(
         text="Deductive: Config.value_with_source against the precedence statement by a loop invariant over a parent chain of arbitrary length (maximal source wins, most recent layer among equals, None only if unset everywhere); __getattribute__ reads its first component; resolved_solver_command prefers --solver-command iff its source >= that of --solver (all source pairs symbolically); with_devdoc / with_natspec add exactly one layer with the right source tag or return the input; load_config layer order; with_overrides stores every given override unchanged whatever its truthiness and rejects unknown options; TomlParser.parse_dict sends every value of a structured option through its parser (so it is validated and means what the command line means) for every TOML value kind, and rejects malformed section layouts. Structured-option round trips (Parse*.parse/unparse, strings and floats) are a bounded stand-in reported separately.",
         ref="DESIGN.md 4/C18",
